@@ -61,7 +61,7 @@ fn escape(s: &str) -> String {
 
 /// a native path with the root made symbolic: a leading root string becomes %R, and any later
 /// path component equal to the i-th name of the root becomes %<i>, so that a run in a temporary
-/// sandbox /tmp/<random>/root and the model's run with the root /sb1/sb2/root print the same text
+/// sandbox and the model's run with the root /sb1/sb2/sb3/root print the same text
 fn relativise(root: &str, p: &str) -> String {
     let (pre, rest) = match p.strip_prefix(root) {
         Some(rest) => ("%R", rest),
@@ -149,9 +149,21 @@ struct Sandbox {
 }
 impl Sandbox {
     fn new() -> Self {
-        // always /tmp/<random>: the root then has exactly three components, like the model's /sb1/sb2/root
-        let guard = tempfile::Builder::new().prefix("cfdpverif").tempdir_in("/tmp").expect("tempdir in /tmp");
-        let t = Utf8PathBuf::from_path_buf(guard.path().to_path_buf()).expect("utf8 tempdir");
+        // The root always has exactly four components, like the model's /sb1/sb2/sb3/root (names that
+        // climb out of a sibling of the root expose the names above it, position by position):
+        // /dev/shm/<random>/root (memory-backed: create_file fsyncs) or /tmp/<random>/pad/root.
+        let (guard, t) = match tempfile::Builder::new().prefix("cfdpverif").tempdir_in("/dev/shm") {
+            Ok(g) => {
+                let t = Utf8PathBuf::from_path_buf(g.path().to_path_buf()).expect("utf8 tempdir");
+                (g, t)
+            }
+            Err(_) => {
+                let g = tempfile::Builder::new().prefix("cfdpverif").tempdir_in("/tmp").expect("tempdir in /tmp");
+                let t = Utf8PathBuf::from_path_buf(g.path().to_path_buf()).expect("utf8 tempdir").join("pad");
+                fs::create_dir_all(&t).expect("sandbox");
+                (g, t)
+            }
+        };
         let root = t.join("root");
         let sb = Sandbox { _guard: guard, t, root };
         sb.build_outside();
